@@ -174,8 +174,12 @@ func genBatchPoints(t *rapid.T, l Layout, now int64, id int, o histGenOpts) []MP
 			if now-age < 1 {
 				age = now - 1
 			}
-			if now-age > math.MaxUint32 {
-				age = 0
+			// zone Z7: no timestamp within two coarsest steps of 2^32 (interval arithmetic would wrap)
+			if hiT := int64(math.MaxUint32) - 2*l.Archives[len(l.Archives)-1].Step - 1; now-age > hiT {
+				age = now - hiT
+				if age > 0 {
+					age = 0
+				}
 			}
 			pts = append(pts, MPoint{T: now - age, V: F64(genVal(t, o.UniqueValues, i))})
 		}
